@@ -293,9 +293,28 @@ def run(ctx: Ctx) -> int:
     ok = ok and all([ast.unparse(a) for a in c.args] == [f"int(match[{i + 1}])" for i in range(len(c.args))] for c in rcalls) and len(rcalls) == 3
     ctx.oblige("C20.c.iii", ok, rs, "field order start, stop, step agrees between range_serializer and range_deserializer" if ok else "range serializer and deserializer disagree on the order of start/stop/step", fn=rs, construct="range field order")
     # step == 1 / start == 0 elisions are exactly range()'s defaults
-    conds = [ast.unparse(n.test) for n in walk_local(rs) if isinstance(n, ast.If)]
-    ok = conds == ["value.step == 1", "value.start == 0"]
-    ctx.oblige("C20.c.iii", ok, rs, "omitted fields are exactly range()'s defaults (start 0, step 1)" if ok else f"range_serializer omits fields under {conds}", fn=rs, construct="range elisions")
+    # (control dependence from the CFG: early returns and nesting are both understood)
+    grs = ctx.cfg(rs)
+    pname = rs.args.args[0].arg
+    defaults_of = {"start": 0, "step": 1}
+    for r_ in [r for r in walk_local(rs) if isinstance(r, ast.Return) and isinstance(r.value, ast.JoinedStr)]:
+        _, attrs = _fstring_regex(r_.value)
+        omitted = [f for f in ("start", "step") if f not in attrs]
+        known = {}
+        for t, pol in grs.guards_of(grs.cn(r_)):
+            if isinstance(t, ast.Compare) and len(t.ops) == 1 and isinstance(t.left, ast.Attribute) and root_name(t.left) == pname and isinstance(t.comparators[0], ast.Constant):
+                eq = (isinstance(t.ops[0], ast.Eq) and pol) or (isinstance(t.ops[0], ast.NotEq) and not pol)
+                if eq:
+                    known[t.left.attr] = t.comparators[0].value
+        bad = [f for f in omitted if known.get(f) != defaults_of[f] or type(known.get(f)) is not int]
+        ok = not bad and "stop" in attrs
+        ctx.oblige(
+            "C20.c.iii",
+            ok,
+            r_,
+            f"template omits {omitted or 'nothing'}: only where the field is known to equal range()'s default ({ {f: defaults_of[f] for f in omitted} })" if ok else f"this template omits {bad} although the field is not known to equal range()'s default there: the value read back differs (e.g. range(0, 10, 2) -> range(10))",
+            fn=rs,
+        )
 
     # (iii) timedelta: str(timedelta) language (datetime.timedelta.__str__) vs deserializer pattern under re.match
     td = ctx.func("typing:timedelta_deserializer")
